@@ -70,6 +70,9 @@ Definition scr_ok (s : screen) (h w : nat) : Prop :=
 Lemma scr_ok_mk : forall h w g pl cu f, gdims g h w -> scr_ok (mkscreen h w g pl cu f false) h w.
 Proof. intros. unfold scr_ok. simpl. auto. Qed.
 
+Lemma scr_ok_mk' : forall h w g pl cu f e, e = false -> gdims g h w -> scr_ok (mkscreen h w g pl cu f e) h w.
+Proof. intros. subst. unfold scr_ok. simpl. auto. Qed.
+
 Lemma exec_char_at : forall o s h w r c ch,
   scr_ok s h w -> cur s = (r, c) -> r < h -> (cw o ch = 1 \/ cw o ch = 2) -> c + cw o ch <= w ->
   exec o s (CChar ch) =
@@ -85,7 +88,7 @@ Qed.
 Lemma exec_erase_at : forall o s h w r c n,
   scr_ok s h w -> cur s = (r, c) -> r < h -> c < w -> 0 < n ->
   exec o s (CEraseChars n) =
-  mkscreen h w (on_row (sgrid s) r (fun row => erase_cells row c n (pen s))) (places s)
+  mkscreen h w (on_row (sgrid s) r (fun row => erase_cells row c n (Blank, ferase o (pen s)))) (places s)
            (r, c) (pen s) false.
 Proof.
   intros o s h w r c n (Hh & Hw & He & _) Hc Hr Hcw Hn. unfold exec. rewrite Hc.
@@ -115,7 +118,7 @@ Definition consistent (t : tracked) (s : screen) : Prop :=
 Definition paint_valid (o : oracle) (h w : nat) (p : paint) : Prop :=
   match p with
   | PChar r c _ ch => r < h /\ (cw o ch = 1 \/ cw o ch = 2) /\ c + cw o ch <= w
-  | PBlanks r c _ n => r < h /\ 1 <= n /\ c + n <= w
+  | PBlanks r c _ n | PErase r c _ n => r < h /\ 1 <= n /\ c + n <= w
   end.
 
 (* Face / CursorTo as needed *)
@@ -151,7 +154,7 @@ Qed.
 Lemma exec_spaces : forall o n s h w r c,
   cw o space = 1 -> scr_ok s h w -> cur s = (r, c) -> r < h -> c + n <= w ->
   exec_list o s (repeat (CChar space) n) =
-  mkscreen h w (on_row (sgrid s) r (fun row => erase_cells row c n (pen s))) (places s)
+  mkscreen h w (on_row (sgrid s) r (fun row => erase_cells row c n (Blank, fspace o (pen s)))) (places s)
            (r, c + n) (pen s) false.
 Proof.
   induction n as [|n IH]; intros s h w r c Hsp Hs Hc Hr Hfit; cbn [repeat];
@@ -171,18 +174,18 @@ Proof.
     + unfold s1. simpl. rewrite on_row_on_row. rewrite Hsp.
       replace (c + 1 + n) with (c + S n) by lia. f_equal.
       apply on_row_ext. intros row. unfold put_char. rewrite Hsp.
-      unfold glyph_of. rewrite N.eqb_refl. replace (c + 1) with (S c) by lia. reflexivity.
+      unfold cell_of. rewrite N.eqb_refl. replace (c + 1) with (S c) by lia. reflexivity.
     + rewrite Hsp. lia.
 Qed.
 
 Lemma exec_emit : forall o s h w t p,
-  cw o space = 1 -> scr_ok s h w -> consistent t s -> paint_valid o h w p ->
+  cw o space = 1 -> erase_law o -> scr_ok s h w -> consistent t s -> paint_valid o h w p ->
   let s' := exec_list o s (fst (emit o t p)) in
   scr_ok s' h w /\ sgrid s' = apply_paint o (sgrid s) p /\ places s' = places s
   /\ consistent (snd (emit o t p)) s'.
 Proof.
-  intros o s h w t p Hsp Hs Hcons Hv.
-  destruct p as [r c f ch|r c f n]; simpl in Hv.
+  intros o s h w t p Hsp Hlaw Hs Hcons Hv.
+  destruct p as [r c f ch|r c f n|r c f n]; simpl in Hv.
   - destruct Hv as (Hr & Hcw & Hfit).
     cbn [emit fst snd]. fold (pre_cmds t r c f). cbv zeta.
     rewrite exec_list_app. rewrite (exec_pre o s h w t r c f) by (auto; lia).
@@ -197,14 +200,15 @@ Proof.
       intros p' Hp; inversion Hp; subst; reflexivity.
   - destruct Hv as (Hr & Hn & Hfit).
     cbn [emit]. fold (pre_cmds t r c f).
-    destruct (4 <? n) eqn:E4; cbn [fst snd]; cbv zeta;
+    destruct ((4 <? n) && erasable o f) eqn:E4; cbn [fst snd]; cbv zeta;
       rewrite exec_list_app; rewrite (exec_pre o s h w t r c f) by (auto; lia);
       set (s1 := mkscreen h w _ _ _ _ _);
       assert (Hs1 : scr_ok s1 h w) by (apply scr_ok_mk; apply Hs).
     + rewrite exec_list_cons, exec_list_nil. rewrite (exec_erase_at o s1 h w r c n Hs1) by (auto; lia).
       split; [|split; [|split]].
       * apply scr_ok_mk. apply gdims_on_row. apply Hs. intros. apply erase_cells_length.
-      * reflexivity.
+      * cbn [sgrid apply_paint pen s1]. apply andb_true_iff in E4. destruct E4 as [_ E4].
+        rewrite (Hlaw f E4). reflexivity.
       * reflexivity.
       * split; cbn [tface tcur pen cur]. intros f' Hf; inversion Hf; subst; reflexivity.
         intros p' Hp; inversion Hp; subst; reflexivity.
@@ -215,20 +219,32 @@ Proof.
       * reflexivity.
       * split; cbn [tface tcur pen cur]. intros f' Hf; inversion Hf; subst; reflexivity.
         intros p' Hp; inversion Hp; subst; reflexivity.
+  - destruct Hv as (Hr & Hn & Hfit).
+    cbn [emit]. fold (pre_cmds t r c f). cbn [fst snd]. cbv zeta.
+    rewrite exec_list_app. rewrite (exec_pre o s h w t r c f) by (auto; lia).
+    set (s1 := mkscreen h w _ _ _ _ _).
+    assert (Hs1 : scr_ok s1 h w) by (apply scr_ok_mk; apply Hs).
+    rewrite exec_list_cons, exec_list_nil. rewrite (exec_erase_at o s1 h w r c n Hs1) by (auto; lia).
+    split; [|split; [|split]].
+    + apply scr_ok_mk. apply gdims_on_row. apply Hs. intros. apply erase_cells_length.
+    + reflexivity.
+    + reflexivity.
+    + split; cbn [tface tcur pen cur]. intros f' Hf; inversion Hf; subst; reflexivity.
+      intros p' Hp; inversion Hp; subst; reflexivity.
 Qed.
 
 Lemma exec_emit_all : forall o ps s h w t,
-  cw o space = 1 -> scr_ok s h w -> consistent t s -> Forall (paint_valid o h w) ps ->
+  cw o space = 1 -> erase_law o -> scr_ok s h w -> consistent t s -> Forall (paint_valid o h w) ps ->
   let s' := exec_list o s (emit_all o t ps) in
   scr_ok s' h w /\ sgrid s' = apply_paints o (sgrid s) ps /\ places s' = places s.
 Proof.
-  induction ps as [|p ps IH]; intros s h w t Hsp Hs Hc Hv; simpl.
+  induction ps as [|p ps IH]; intros s h w t Hsp Hlaw Hs Hc Hv; simpl.
   - auto.
   - inversion Hv; subst.
     destruct (emit o t p) as [cs t'] eqn:E. rewrite exec_list_app.
-    pose proof (exec_emit o s h w t p Hsp Hs Hc H1) as Hstep. rewrite E in Hstep. simpl in Hstep.
+    pose proof (exec_emit o s h w t p Hsp Hlaw Hs Hc H1) as Hstep. rewrite E in Hstep. simpl in Hstep.
     destruct Hstep as (Hs' & Hg & Hp & Hc').
-    destruct (IH (exec_list o s cs) h w t' Hsp Hs' Hc' H2) as (Hs'' & Hg' & Hp').
+    destruct (IH (exec_list o s cs) h w t' Hsp Hlaw Hs' Hc' H2) as (Hs'' & Hg' & Hp').
     repeat split; try apply Hs''.
     + rewrite Hg', Hg. reflexivity.
     + rewrite Hp', Hp. reflexivity.
@@ -240,7 +256,7 @@ Lemma on_row_ext_in : forall (g : grid scell) r f1 f2,
 Proof. intros. unfold on_row. destruct (nth_error g r) eqn:E; auto. rewrite (H _ eq_refl). reflexivity. Qed.
 
 Definition img_paints (o : oracle) (h w r c : nat) (f : face) (i : N) : list paint :=
-  map (fun row => PBlanks (Nat.min row (h - 1)) c f (Nat.min (snd (isz o i)) (w - c)))
+  map (fun row => PErase (Nat.min row (h - 1)) c f (Nat.min (snd (isz o i)) (w - c)))
       (seq r (fst (isz o i))).
 
 Lemma exec_erase_rows : forall o h w c f iw rows s,
@@ -248,7 +264,7 @@ Lemma exec_erase_rows : forall o h w c f iw rows s,
   let s' := exec_list o s (flat_map (fun row => [CCursorTo row c; CEraseChars iw]) rows) in
   scr_ok s' h w
   /\ sgrid s' = apply_paints o (sgrid s)
-                  (map (fun row => PBlanks (Nat.min row (h - 1)) c f (Nat.min iw (w - c))) rows)
+                  (map (fun row => PErase (Nat.min row (h - 1)) c f (Nat.min iw (w - c))) rows)
   /\ places s' = places s /\ pen s' = f.
 Proof.
   intros o h w c f iw. induction rows as [|row rows IH]; intros s Hs Hp Hc Hh Hiw; cbn [flat_map map].
@@ -268,6 +284,9 @@ Proof.
     apply on_row_ext_in. intros rw Hrw.
     apply erase_cells_clip. destruct Hs as (_ & _ & _ & Hd). eapply gdims_row; eauto.
 Qed.
+
+Lemma image_cmds_paint_image : forall o r c f i, image_cmds o r c f i = paint_image o r c f i.
+Proof. intros. unfold image_cmds, paint_image. destruct (isz o i). reflexivity. Qed.
 
 Definition add_place (p : placement) (l : list placement) : list placement :=
   if place_mem p l then l else p :: l.
